@@ -11,6 +11,8 @@ import (
 	"time"
 )
 
+var SlowLog int
+
 // Solver is one long-lived SMT solver process fed over a pipe.
 type Solver struct {
 	ctx     *Ctx
@@ -28,6 +30,7 @@ type Solver struct {
 	nSat, nUnsat, nUnknown, nErr int
 	wall                         time.Duration
 	lastErr                      string
+	slowest                      time.Duration
 }
 
 func NewSolver(ctx *Ctx, bin string, logPath string) (*Solver, error) {
@@ -201,7 +204,17 @@ func (s *Solver) Check(pc []*Term, extra *Term, timeoutMs int) string {
 		s.send(fmt.Sprintf("(set-option :timeout %d)", timeoutMs))
 	}
 	s.send("(check-sat)")
+	tq := time.Now()
+	proc := s.cmd.Process
+	watchdog := time.AfterFunc(time.Duration(timeoutMs)*time.Millisecond+3*time.Second, func() { proc.Kill() })
 	lines := s.roundtrip()
+	watchdog.Stop()
+	if d := time.Since(tq); d > s.slowest {
+		s.slowest = d
+	}
+	if SlowLog > 0 && time.Since(tq) > time.Duration(SlowLog)*time.Millisecond {
+		fmt.Printf("  [slow query %.2fs, %d conjuncts, last=%s]\n", time.Since(tq).Seconds(), len(want), want[len(want)-1].ref())
+	}
 	res := "unknown"
 	for _, l := range lines {
 		switch {
@@ -215,7 +228,8 @@ func (s *Solver) Check(pc []*Term, extra *Term, timeoutMs int) string {
 			s.nErr++
 			s.lastErr = l
 			res = "unknown"
-			if strings.Contains(l, "solver died") {
+			if strings.Contains(l, "solver died") || strings.Contains(l, "pipe:") {
+				s.lastErr = "solver exceeded its time limit and was restarted"
 				s.restart()
 			}
 			s.nUnknown++
